@@ -94,11 +94,12 @@ static void installHeapSeam() {
 static int g_init[N_TARGETS];
 static int g_val[N_VALUES];
 static void* g_tgt[N_TARGETS];
+static void* initialValueOf(int i) { return i % 3 == 1 ? (void*)0 : (void*)&g_init[i]; }      // some of the pointers a test may redirect are null before it (an optional hook)
 static int64_t probePointers() {               // one nibble per target: 0 = initial value, 1+j = value j, 15 = something else
     int64_t v = 0;
     for (int i = 0; i < N_TARGETS; i++) {
         int code = 15;
-        if (g_tgt[i] == (void*)&g_init[i]) code = 0;
+        if (g_tgt[i] == initialValueOf(i)) code = 0;
         else for (int j = 0; j < N_VALUES; j++) if (g_tgt[i] == (void*)&g_val[j]) code = 1 + j;
         v |= (int64_t)code << (4 * i);
     }
@@ -388,6 +389,7 @@ static void execOp(const Group& T, const Op& o) {
         delete local;
         break;
     }
+    case K_MISUSE_FREE: { static char neverAllocated[16]; fired("release_of_an_address_never_allocated_inside_a_test"); cpputest_free_location(neverAllocated, file, (size_t)line); break; }
     case K_DETECTOR_OFF: MemoryLeakWarningPlugin::getGlobalDetector()->disable(); fired("detector_left_switched_off_by_a_failing_test"); break;
     case K_NESTED_RUN: {      // as the library's own tests do: a fixture with a registry, output and result of its own runs one test; afterwards the outer test is current again
         TestTestingFixture fx; fx.setTestFunction(o.a ? nestedFailingTest : nestedPassingTest);
@@ -604,7 +606,7 @@ void executeRun(const Desc& d, Obs& o) {
     atexit(exitTimeStateOfTheRunner);
     installHeapSeam(); g_steerSeed = d.seed; g_steerCount = 0; g_steerMode = (int)d.pi("bucket", -1); g_steerOn = d.pi("steer", 0) != 0 || g_steerMode >= 0;
     static bool first = true;
-    if (first) { first = false; for (int i = 0; i < N_TARGETS; i++) g_tgt[i] = &g_init[i]; }
+    if (first) { first = false; for (int i = 0; i < N_TARGETS; i++) g_tgt[i] = initialValueOf(i); }
     MemoryLeakWarningPlugin* leak = new (leakPluginStorage()) MemoryLeakWarningPlugin(DEF_PLUGIN_MEM_LEAK);
     MemoryLeakDetector* det = MemoryLeakWarningPlugin::getGlobalDetector();
     MemoryLeakWarningPlugin::turnOnDefaultNotThreadSafeNewDeleteOverloads();
@@ -612,7 +614,7 @@ void executeRun(const Desc& d, Obs& o) {
     RS = RunState(); RS.d = &d; RS.o = &o; RS.currentTest = -1;
     { sigset_t none; sigemptyset(&none); sigprocmask(SIG_SETMASK, &none, 0); }      // every run of a worker starts with no signal blocked, whatever the run before left
     RS.outsideShell = UtestShell::getCurrent();
-    for (int i = 0; i < N_TARGETS; i++) g_tgt[i] = &g_init[i];
+    for (int i = 0; i < N_TARGETS; i++) g_tgt[i] = initialValueOf(i);
     memset(RS.slots, 0, sizeof RS.slots);
     static SetPointerPlugin* innerPlugin = new (::malloc(sizeof(SetPointerPlugin))) SetPointerPlugin("InnerSetPointerPlugin"); RS.innerSetPtr = innerPlugin;
     for (size_t g = 0; g < d.groups.size(); g++) if (d.groups[g].tag == "presets")
